@@ -129,9 +129,9 @@ def run(ctx):
     T.rule_len(ctx, "R4l")
     L.rule_order(ctx, "R5")
     L.rule_serialization(ctx, "R5s")
-    # variant tries key on the tuple form: it must be the very tuple the string form is built from
+    # variant tries key on the tuple form of their URL function
     from .c07 import stems_variants
-    stems_variants(ctx, "R6")
+    stems_variants(ctx, "R6", string_forms=False)
     ctx.rule("R7", "the variant tries key on the SplitResult their URL function returns with unsplit=False, whose path is split at '/' with the first (empty) piece dropped: normpath, interpreted on every absolute path of <= 4 segments over {a, b, '.', '..', ''}, agrees with the RFC 3986 dot-segment reference (in particular an absolute path stays absolute)")
     ctx.fn("ural.utils.normpath")
     from .common_url import normpath_table
